@@ -91,7 +91,8 @@ def run_config(ctx, rep, cfg, F):
                     rep.bad("R18.2", short, "prefix-not-replaced", "%s on an existing node %s must store the caller's representation of the key; "
                             "prefix writes: %s (inputs: %s)" % (short, cls[1], [repr(e) for e in pw], C.inputs_str(p, 10)), config=cfg)
                 else:
-                    rep.ok("R18.2", short, "replaces the stored prefix (%s)" % cls[0])
+                    rep.ok("R18.2", short, "replaces the stored prefix (%s)" % cls[0],
+                           sample={"node": cls[1], "prefix_write": repr(pw[-1]), "inputs": C.inputs_str(p, 8)})
     # entry API
     for short, replaces in REPLACES.items():
         if short not in F.short:
